@@ -1,6 +1,7 @@
 package sim
 
 import (
+	"berty.tech/go-orbit-db/stores/basestore"
 	"context"
 	"encoding/json"
 	"fmt"
@@ -18,7 +19,7 @@ import (
 
 func init() {
 	Register(&Scenario{Prop: "C09", Name: "multi-db-isolation", Run: scenC09, SoftParks: true, Weight: 1,
-		Rule: "instance P with 2-4 databases (types and write lists mixed) on its default shared event bus, peer Q (and sometimes R) opening a random subset; one database is kept idle after setup; 4-14 (thorough 4-36) writes on the other databases from any peer holding them (one operation in four writes to all of a peer's active databases at the same time), replication under faults, Load(-1) on a non-idle database; oracles: every payload published on a database topic or a direct channel names one database and carries only heads of that database's log; the idle database's log, replication status and cached head keys never change and no store event carries its address; every EventWrite/EventReplicated carries only entries of its own database; after a final reconnect of all peers every holder of a database has every acknowledged write of that database; non-trivial = >=2 active databases on P, >=1 replication into P and >=1 write on P while the idle database was watched"})
+		Rule: "instance P with 2-4 databases (types and write lists mixed) on its default shared event bus, peer Q (and sometimes R) opening a random subset; one database is kept idle after setup; 4-14 (thorough 4-36) writes on the other databases from any peer holding them (one operation in four writes to all of a peer's active databases at the same time), replication under faults, Load(-1) on a non-idle database, SaveSnapshot of a non-idle database while its replicator has unfinished work followed by LoadFromSnapshot into the same store; oracles: every payload published on a database topic or a direct channel names one database and carries only heads of that database's log; the idle database's log, replication status and cached head keys never change and no store event carries its address; every EventWrite/EventReplicated carries only entries of its own database; after a final reconnect of all peers every holder of a database has every acknowledged write of that database; non-trivial = >=2 active databases on P, >=1 replication into P and >=1 write on P while the idle database was watched"})
 }
 
 type c09db struct {
@@ -267,6 +268,87 @@ func scenC09(k *K) {
 			k.Steps(k.C.Intn(8))
 			continue
 		}
+		if st0 := db.stores[0]; st0 != nil && len(holders) > 1 && k.C.Chance(1, 4) {
+			// a snapshot of a non-idle database saved while its replicator has unfinished
+			// work (the queue goes into the snapshot), then loaded back into the same store:
+			// the queued hashes are handed to the replicator again as bare hashes
+			failFirst := k.C.Chance(1, 2) // the unfinished work is a fetch that failed (and is over)
+			busy := func() bool {
+				rs, ok := ReplStats(st0)
+				if failFirst {
+					return ok && rs.Failed > 0 && rs.Queued+rs.Added+rs.Fetching == 0
+				}
+				return ok && rs.Queued+rs.Added+rs.Fetching > 0
+			}
+			if !busy() && len(holders) > 1 {
+				// somebody else writes; the announcement gets through, the blocks do not yet
+				q := holders[1+k.C.Intn(len(holders)-1)]
+				if q == 0 {
+					q = holders[0]
+				}
+				if q != 0 {
+					// 2-3 writes while the link is cut (announcements lost): after the heal the
+					// head comes with the head exchange, what lies between it and the
+					// receiver's log has to be fetched
+					holdBefore := k.W.HoldOnCut
+					k.W.HoldOnCut = false
+					k.Cut(0, q)
+					for wn, wm := 0, k.C.Range(2, 3); wn < wm; wn++ {
+						wseq++
+						val := fmt.Sprintf("w%d.%d", q, wseq)
+						sq := db.stores[q]
+						wop := k.Do(q, fmt.Sprintf("write %s %s", short(db.addr), val), 20, func() (interface{}, error) {
+							ctx, cancel := OpCtx(60 * time.Second)
+							defer cancel()
+							return c09Write(ctx, sq, val)
+						})
+						if wop.Done && wop.Err == nil {
+							active[db.addr] = true
+							if o, ok := wop.Val.(operation.Operation); ok && o != nil {
+								acked[db.addr] = append(acked[db.addr], o.GetEntry().GetHash().String())
+								if failFirst {
+									k.W.mu.Lock()
+									k.W.FailWant[o.GetEntry().GetHash().String()] = 2
+									k.W.mu.Unlock()
+								}
+							}
+						}
+					}
+					saved := k.F
+					k.F = FaultCfg{Refresh: 5, Tick: 1}
+					k.Steps(8)
+					k.Tick(2500 * time.Millisecond)
+					k.Steps(8)
+					k.Heal(0, q)
+					k.W.HoldOnCut = holdBefore
+					k.F = FaultCfg{Deliver: 5, Refresh: 3, Tick: 1}
+					if failFirst {
+						k.F.Serve = 4
+					}
+					for j := 0; j < 250 && !busy(); j++ {
+						k.Step()
+					}
+					k.F = saved
+				}
+			}
+			if busy() {
+				sop := k.Do(0, "save-snapshot", 100, func() (interface{}, error) {
+					ctx, cancel := OpCtx(2 * time.Minute)
+					defer cancel()
+					return basestore.SaveSnapshot(ctx, st0)
+				})
+				if sop.Done && sop.Err == nil {
+					k.Do(0, "load-from-snapshot", 200, func() (interface{}, error) {
+						ctx, cancel := OpCtx(5 * time.Minute)
+						defer cancel()
+						return nil, st0.LoadFromSnapshot(ctx)
+					})
+					k.W.Stat("snapshot-with-queue-loaded-beside-idle-database")
+				}
+				k.Steps(k.C.Intn(8))
+				continue
+			}
+		}
 		if k.C.Chance(1, 8) && pi == 0 {
 			k.Do(0, "load", 200, func() (interface{}, error) {
 				ctx, cancel := OpCtx(5 * time.Minute)
@@ -361,3 +443,207 @@ func short(addr string) string {
 }
 
 var _ event.Subscription
+
+func init() {
+	Register(&Scenario{Prop: "C09", Name: "restore-beside-idle", Run: scenC09Restore, Weight: 1,
+		Rule: "instance P with databases A (fed by peer Q) and B (idle, with a few entries of its own); A's snapshot is saved while P's replicator for A has unfinished work (link cut, 2-4 writes on Q, heal, fetches withheld or failed), P is closed and started again on its directory, A and B are opened, A is filled with LoadFromSnapshot (the saved queue goes to the fresh replicator as bare hashes) while B is watched; oracle: no store event on P's bus carries B's address, B's log, replication status and cached heads do not change; non-trivial = the snapshot's queue was not empty"})
+}
+
+func scenC09Restore(k *K) {
+	pn := k.W.AddNode()
+	P, err := k.StartPeer(pn)
+	if err != nil {
+		panic(abortPanic{err.Error()})
+	}
+	Q, err := k.StartPeer(k.W.AddNode())
+	if err != nil {
+		panic(abortPanic{err.Error()})
+	}
+	ids := []string{P.DB.Identity().ID, Q.DB.Identity().ID}
+	types := []string{"keyvalue", "eventlog", "docstore"}
+	mk := func(name string) iface.Store {
+		typ := types[k.C.Intn(3)]
+		op := k.Do(0, "create "+name, 50, func() (interface{}, error) {
+			ctx, cancel := OpCtx(time.Minute)
+			defer cancel()
+			return P.DB.Create(ctx, name, typ, &orbitdb.CreateDBOptions{AccessController: WriteACL(ids...)})
+		})
+		if !op.Done || op.Err != nil {
+			panic(abortPanic{fmt.Sprint(op.Err)})
+		}
+		return op.Val.(iface.Store)
+	}
+	a, b := mk("a"), mk("b")
+	addrA, addrB := a.Address().String(), b.Address().String()
+	oq := k.Do(1, "open", 400, func() (interface{}, error) {
+		ctx, cancel := OpCtx(10 * time.Minute)
+		defer cancel()
+		return Q.DB.Open(ctx, addrA, nil)
+	})
+	if !oq.Done || oq.Err != nil {
+		panic(abortPanic{fmt.Sprint(oq.Err)})
+	}
+	qa := oq.Val.(iface.Store)
+	wseq := 0
+	write := func(node int, st iface.Store) {
+		wseq++
+		val := fmt.Sprintf("w%d.%d", node, wseq)
+		k.Do(node, "write "+val, 20, func() (interface{}, error) {
+			ctx, cancel := OpCtx(time.Minute)
+			defer cancel()
+			return c09Write(ctx, st, val)
+		})
+	}
+	for j, m := 0, k.C.Range(0, 3); j < m; j++ {
+		write(0, b)
+	}
+	for j, m := 0, k.C.Range(0, 2); j < m; j++ {
+		write(0, a)
+	}
+	k.Settle(30*time.Second, 1500, nil)
+	// ---- unfinished work in P's replicator for A ----
+	k.W.HoldOnCut = false
+	k.Cut(0, 1)
+	failFirst := k.C.Chance(1, 2)
+	for j, m := 0, k.C.Range(2, 4); j < m; j++ {
+		write(1, qa)
+	}
+	if failFirst {
+		k.W.mu.Lock()
+		for _, e := range LogValues(qa) {
+			k.W.FailWant[e.GetHash().String()] = 2
+		}
+		k.W.mu.Unlock()
+	}
+	k.F = FaultCfg{Refresh: 5, Tick: 1}
+	k.Steps(8)
+	k.Tick(2500 * time.Millisecond)
+	k.Steps(8)
+	k.Heal(0, 1)
+	k.F = FaultCfg{Deliver: 5, Refresh: 3, Tick: 1}
+	if failFirst {
+		k.F.Serve = 4
+	}
+	unfinished := func() bool {
+		rs, ok := ReplStats(a)
+		if !ok {
+			return false
+		}
+		if failFirst {
+			return rs.Failed > 0 && rs.Queued+rs.Added+rs.Fetching == 0
+		}
+		return rs.Queued+rs.Added+rs.Fetching > 0
+	}
+	for j := 0; j < 250 && !unfinished(); j++ {
+		k.Step()
+	}
+	queued := unfinished()
+	sop := k.Do(0, "save-snapshot", 100, func() (interface{}, error) {
+		ctx, cancel := OpCtx(2 * time.Minute)
+		defer cancel()
+		return basestore.SaveSnapshot(ctx, a)
+	})
+	if !sop.Done || sop.Err != nil {
+		k.Notes["nontrivial"] = false
+		k.StopPeer(P)
+		k.StopPeer(Q)
+		return
+	}
+	// ---- restart of P, both databases opened again ----
+	k.F = BenignCfg()
+	cop := k.StopPeer(P)
+	k.Wait()
+	for j := 0; j < 200 && !k.IsDone(cop); j++ {
+		k.Step()
+	}
+	k.W.Detach(P.Inc)
+	k.W.mu.Lock()
+	k.W.FailWant = map[string]int{}
+	k.W.mu.Unlock()
+	P2, err := k.StartPeer(pn)
+	if err != nil {
+		k.Failf("C09/restart-error", "%v", err)
+	}
+	reopen := func(addr string) iface.Store {
+		op := k.Do(0, "reopen", 400, func() (interface{}, error) {
+			ctx, cancel := OpCtx(10 * time.Minute)
+			defer cancel()
+			return P2.DB.Open(ctx, addr, nil)
+		})
+		if !op.Done || op.Err != nil {
+			k.Failf("C09/restart-error", "reopen of %s: done=%v err=%v", short(addr), op.Done, op.Err)
+		}
+		return op.Val.(iface.Store)
+	}
+	b2 := reopen(addrB)
+	lop := k.Do(0, "load b", 200, func() (interface{}, error) {
+		ctx, cancel := OpCtx(5 * time.Minute)
+		defer cancel()
+		return nil, b2.Load(WithOfflineReads(ctx), -1)
+	})
+	if !lop.Done || lop.Err != nil {
+		k.Failf("C09/restart-error", "Load of the idle database: done=%v err=%v", lop.Done, lop.Err)
+	}
+	a2 := reopen(addrA)
+	k.Settle(30*time.Second, 1500, nil)
+	var evTypes []interface{}
+	evTypes = append(evTypes, stores.Events...)
+	sub, err := P2.DB.EventBus().Subscribe(evTypes, eventbus.BufSize(16384))
+	if err != nil {
+		panic(abortPanic{"subscribe: " + err.Error()})
+	}
+	k.cleanups = append(k.cleanups, func() { sub.Close() })
+	snap := func() string {
+		sp := spaceForAddress(P2.Node.Disk, addrB)
+		lh, _ := P2.Node.Disk.CacheGet(sp, "/_localHeads")
+		rh, _ := P2.Node.Disk.CacheGet(sp, "/_remoteHeads")
+		return fmt.Sprintf("log=%v progress=%d max=%d localHeads=%x remoteHeads=%x", LogHashSeq(b2), b2.ReplicationStatus().GetProgress(), b2.ReplicationStatus().GetMax(), lh, rh)
+	}
+	before := snap()
+	k.Invariant = func() {
+		for {
+			select {
+			case e := <-sub.Out():
+				addr := ""
+				switch ev := e.(type) {
+				case stores.EventWrite:
+					addr = ev.Address.String()
+				case stores.EventReplicated:
+					addr = ev.Address.String()
+				case stores.EventReplicateProgress:
+					addr = ev.Address.String()
+				case stores.EventReplicate:
+					addr = ev.Address.String()
+				case stores.EventLoad:
+					addr = ev.Address.String()
+				case stores.EventReady:
+					addr = ev.Address.String()
+				}
+				if addr == addrB {
+					k.Failf("C09/idle/event", "while database A was restored from its snapshot, P emitted %T carrying the address of the idle database B", e)
+				}
+				continue
+			default:
+			}
+			break
+		}
+		if cur := snap(); cur != before {
+			k.Failf("C09/idle/changed", "the idle database B changed while database A was restored from its snapshot:\n before: %s\n after:  %s", before, cur)
+		}
+	}
+	rop := k.Do(0, "load-from-snapshot", 300, func() (interface{}, error) {
+		ctx, cancel := OpCtx(5 * time.Minute)
+		defer cancel()
+		return nil, a2.LoadFromSnapshot(ctx)
+	})
+	if !rop.Done {
+		k.Failf("C09/restore-hang", "LoadFromSnapshot of A did not return")
+	}
+	k.Settle(60*time.Second, 2500, nil)
+	k.Wait()
+	k.Invariant = nil
+	k.Notes["queued"] = queued
+	k.Notes["nontrivial"] = queued
+	k.StopPeer(P2)
+	k.StopPeer(Q)
+}
